@@ -155,7 +155,84 @@ def cmd_run(args):
     return 0
 
 
+def matrix_one(sid, props, tier):
+    """Run checks against one seeded change in isolation: scratch worktree + copy of the harness."""
+    d = os.path.join(SEEDED, sid)
+    base = "/tmp/seedmx-%s-%d" % (sid, os.getpid())
+    wt = base + "-wt"
+    hz = base + "-harness"
+    out = base + "-out"
+    res = {}
+    rc, o = sh(["git", "-C", "/repo", "worktree", "add", "-q", "--detach", wt, "HEAD"])
+    if rc != 0:
+        return {"error": o}
+    try:
+        rc, o = sh(["git", "apply", os.path.join(d, "patch.diff")], cwd=wt)
+        if rc != 0:
+            return {"error": "patch does not apply: " + o}
+        shutil.copytree(os.path.join(ROOT, "harness"), hz)
+        sh(["go", "mod", "edit", "-replace", "github.com/sahandsafizadeh/qeep=" + wt], cwd=hz)
+        os.makedirs(out, exist_ok=True)
+        env = dict(ENV, VERIF_DEV_HARNESS=hz, VERIF_DEV_OUT=out)
+        for p in props:
+            t0 = time.time()
+            pr = subprocess.run(["python3", os.path.join(ROOT, "verif.py"), "check", p, "--tier", tier], cwd=ROOT, env=env,
+                                stdout=subprocess.PIPE, stderr=subprocess.STDOUT, text=True, timeout=7200)
+            verdict = {0: "missed", 1: "caught", 2: "inconclusive"}.get(pr.returncode, "rc%s" % pr.returncode)
+            msg = ""
+            if pr.returncode == 1:
+                for l in pr.stdout.splitlines():
+                    if ("common_test.go" in l or "failed after" in l) and ": " in l:
+                        msg = l.strip()[:300]
+                        break
+            res["%s/%s" % (p, tier)] = {"verdict": verdict, "wall_s": round(time.time() - t0, 1), "message": msg}
+    finally:
+        sh(["git", "-C", "/repo", "worktree", "remove", "--force", wt])
+        shutil.rmtree(wt, ignore_errors=True)
+        shutil.rmtree(hz, ignore_errors=True)
+        shutil.rmtree(out, ignore_errors=True)
+    return res
+
+
+def cmd_matrix(args):
+    from concurrent.futures import ThreadPoolExecutor
+    tier = "quick"
+    jobs = 4
+    ids = []
+    props = ["C%02d" % k for k in range(1, 21)]
+    i = 0
+    while i < len(args):
+        if args[i] == "--tier":
+            tier = args[i + 1]; i += 2
+        elif args[i] == "--jobs":
+            jobs = int(args[i + 1]); i += 2
+        elif args[i] == "--checks":
+            props = args[i + 1].split(","); i += 2
+        else:
+            ids.append(args[i]); i += 1
+    if not ids:
+        ids = sorted(d for d in os.listdir(SEEDED) if os.path.isdir(os.path.join(SEEDED, d)))
+    resf = os.path.join(SEEDED, "matrix.json")
+    try:
+        with open(resf) as f:
+            results = json.load(f)
+    except (OSError, ValueError):
+        results = {}
+    with ThreadPoolExecutor(max_workers=jobs) as ex:
+        futs = {sid: ex.submit(matrix_one, sid, props, tier) for sid in ids}
+        for sid, fu in futs.items():
+            r = fu.result()
+            results.setdefault(sid, {}).update(r)
+            caught = sorted(k for k, v in r.items() if isinstance(v, dict) and v.get("verdict") == "caught")
+            print("%-12s caught by: %s" % (sid, " ".join(caught) or "-"), flush=True)
+            with open(resf, "w") as f:
+                json.dump(results, f, indent=1, sort_keys=True)
+    return 0
+
+
 if __name__ == "__main__":
+    if len(sys.argv) >= 2 and sys.argv[1] == "matrix":
+        sys.exit(cmd_matrix(sys.argv[2:]))
     if len(sys.argv) >= 5 and sys.argv[1] == "import":
         sys.exit(cmd_import(sys.argv[2], sys.argv[3], sys.argv[4]))
     if len(sys.argv) >= 2 and sys.argv[1] == "run":
